@@ -6,4 +6,5 @@ pub mod json;
 pub mod model;
 pub mod reclog;
 pub mod emfh;
+pub mod emfgen;
 pub mod props;
